@@ -1,4 +1,11 @@
 (* Ports/PortProofsC12.v — proofs for property C12 (model: PortModel.v, specification: PortSpec.v). *)
+(* All statements are proved exactly as given (no hypothesis added or changed):
+     out_stores, out_frame, out_error_kinds, out_declared_port, out_undeclared_port, out_wf,
+     get_port_dyn_preserves, finish_successful_iff.
+   Added: out_located (+ out_located_error, out_located_leaf): the nested form;
+          out_result / out_spec: [out] on a namespace as a case table over the split path;
+          get_port_dyn_found, get_port_dyn_preserves_deep, get_port_dyn_wf, out_spec_wf: what
+          create_dynamically does to the tree;  split_path_join: dotted paths split back. *)
 From Coq Require Import List ZArith String Bool Ascii Lia.
 From Plumpy Require Import Val PortModel PortSpec.
 Import ListNotations.
@@ -339,6 +346,116 @@ Proof.
       injection H as <-. exact (IH _ _ _ Er).
 Qed.
 
+(* ---- more about what get_port_dyn does to the tree (lookup_port is the spec-side path lookup) ---- *)
+
+Lemma lookup_port_cons : forall c q a ps,
+  lookup_port (c :: q) (PNs a ps) =
+  match ports_get c ps with Some p' => lookup_port q p' | None => None end.
+Proof. reflexivity. Qed.
+
+(* the port returned sits at the requested path of the (possibly extended) tree *)
+Lemma get_port_dyn_found : forall comps a ps ps' p,
+  get_port_dyn comps a ps = inr (ps', p) -> lookup_port comps (PNs a ps') = Some p.
+Proof.
+  intro comps. induction comps as [|c rest IH]; intros a ps ps' p H; [discriminate H|].
+  rewrite get_port_dyn_cons in H. rewrite lookup_port_cons.
+  destruct (String.eqb c EmptyString); [discriminate H|].
+  destruct (ports_get c ps) as [[la|na sub]|] eqn:Ec.
+  - destruct rest; [|discriminate H]. injection H as <- <-. rewrite Ec. reflexivity.
+  - destruct rest as [|c' rest'].
+    + injection H as <- <-. rewrite Ec. reflexivity.
+    + destruct (get_port_dyn (c' :: rest') na sub) as [e'|[sub' p']] eqn:Er; [discriminate H|].
+      injection H as <- <-. rewrite ports_get_set_same. exact (IH _ _ _ _ Er).
+  - destruct (negb (n_dynamic a)); [discriminate H|].
+    destruct rest as [|c' rest'].
+    + injection H as <- <-. rewrite ports_get_set_same. reflexivity.
+    + destruct (get_port_dyn (c' :: rest') (dyn_attrs a) PNil) as [e'|[sub' p']] eqn:Er; [discriminate H|].
+      injection H as <- <-. rewrite ports_get_set_same. exact (IH _ _ _ _ Er).
+Qed.
+
+(* (5), at any depth: whatever was reachable before is still reachable; leaves are unchanged and
+   namespaces keep their attributes (only their sets of sub-ports may have grown) *)
+Lemma get_port_dyn_preserves_deep : forall comps a ps ps' p,
+  get_port_dyn comps a ps = inr (ps', p) ->
+  forall path q, lookup_port path (PNs a ps) = Some q ->
+    exists q', lookup_port path (PNs a ps') = Some q' /\
+      (forall la, q = PLeaf la -> q' = q) /\
+      (forall na sub, q = PNs na sub -> exists sub', q' = PNs na sub').
+Proof.
+  intro comps. induction comps as [|c rest IH]; intros a ps ps' p H path q Hq; [discriminate H|].
+  destruct path as [|k path'].
+  - simpl in Hq. injection Hq as <-. exists (PNs a ps'). split; [reflexivity|]. split.
+    + intros la Hla. discriminate Hla.
+    + intros na sub Hns. injection Hns as <- <-. exists ps'. reflexivity.
+  - assert (Hsame : ports_get k ps' = ports_get k ps ->
+        exists q', lookup_port (k :: path') (PNs a ps') = Some q' /\
+          (forall la, q = PLeaf la -> q' = q) /\
+          (forall na sub, q = PNs na sub -> exists sub', q' = PNs na sub')).
+    { intro Hs. exists q. split; [rewrite lookup_port_cons, Hs; exact Hq|].
+      split; [reflexivity|]. intros na sub Hns. exists sub. exact Hns. }
+    rewrite get_port_dyn_cons in H.
+    destruct (String.eqb c EmptyString); [discriminate H|].
+    destruct (ports_get c ps) as [[la|na sub]|] eqn:Ec.
+    + destruct rest; [|discriminate H]. injection H as <- _. apply Hsame. reflexivity.
+    + destruct rest as [|c' rest'].
+      * injection H as <- _. apply Hsame. reflexivity.
+      * destruct (get_port_dyn (c' :: rest') na sub) as [e'|[sub' p']] eqn:Er; [discriminate H|].
+        injection H as <- _.
+        destruct (String.eqb k c) eqn:Ekc.
+        -- apply String.eqb_eq in Ekc. subst k. rewrite lookup_port_cons, Ec in Hq.
+           destruct (IH _ _ _ _ Er path' q Hq) as [q' [Hq' Hrest]].
+           exists q'. split; [|exact Hrest].
+           rewrite lookup_port_cons, ports_get_set_same. exact Hq'.
+        -- apply String.eqb_neq in Ekc. apply Hsame. apply ports_get_set_other. exact Ekc.
+    + assert (Hne : k <> c).
+      { intro Heq. subst k. rewrite lookup_port_cons, Ec in Hq. discriminate Hq. }
+      destruct (negb (n_dynamic a)); [discriminate H|].
+      destruct rest as [|c' rest'].
+      * injection H as <- _. apply Hsame. apply ports_get_set_other. exact Hne.
+      * destruct (get_port_dyn (c' :: rest') (dyn_attrs a) PNil) as [e'|[sub' p']]; [discriminate H|].
+        injection H as <- _. apply Hsame. apply ports_get_set_other. exact Hne.
+Qed.
+
+(* names stay unique, at every level *)
+Lemma wf_ns_set : forall a ps c q,
+  wf_port (PNs a ps) = true -> wf_port q = true -> wf_port (PNs a (ports_set c q ps)) = true.
+Proof.
+  intros a ps c q Hps Hq. simpl in *. apply andb_true_iff in Hps. destruct Hps as [Hu Hw].
+  rewrite names_unique_set, Hu, (wf_ports_set c q ps Hq Hw). reflexivity.
+Qed.
+
+Lemma wf_ns_get : forall a ps c q,
+  wf_port (PNs a ps) = true -> ports_get c ps = Some q -> wf_port q = true.
+Proof.
+  intros a ps c q Hps Hg. simpl in Hps. apply andb_true_iff in Hps. destruct Hps as [_ Hw].
+  exact (wf_ports_get c ps q Hw Hg).
+Qed.
+
+Lemma get_port_dyn_wf : forall comps a ps ps' p,
+  wf_port (PNs a ps) = true -> get_port_dyn comps a ps = inr (ps', p) ->
+  wf_port (PNs a ps') = true /\ wf_port p = true.
+Proof.
+  intro comps. induction comps as [|c rest IH]; intros a ps ps' p Hwf H; [discriminate H|].
+  rewrite get_port_dyn_cons in H.
+  destruct (String.eqb c EmptyString); [discriminate H|].
+  destruct (ports_get c ps) as [[la|na sub]|] eqn:Ec.
+  - destruct rest; [|discriminate H]. injection H as <- <-. split; [exact Hwf|reflexivity].
+  - assert (Hsub : wf_port (PNs na sub) = true) by exact (wf_ns_get a ps c _ Hwf Ec).
+    destruct rest as [|c' rest'].
+    + injection H as <- <-. split; [exact Hwf|exact Hsub].
+    + destruct (get_port_dyn (c' :: rest') na sub) as [e'|[sub' p']] eqn:Er; [discriminate H|].
+      injection H as <- <-. destruct (IH _ _ _ _ Hsub Er) as [Hsub' Hp].
+      split; [|exact Hp]. apply wf_ns_set; assumption.
+  - destruct (negb (n_dynamic a)); [discriminate H|].
+    destruct rest as [|c' rest'].
+    + injection H as <- <-. split; [|reflexivity]. apply wf_ns_set; [exact Hwf|reflexivity].
+    + destruct (get_port_dyn (c' :: rest') (dyn_attrs a) PNil) as [e'|[sub' p']] eqn:Er; [discriminate H|].
+      injection H as <- <-.
+      assert (Hnil : wf_port (PNs (dyn_attrs a) PNil) = true) by reflexivity.
+      destruct (IH _ _ _ _ Hnil Er) as [Hsub' Hp].
+      split; [|exact Hp]. apply wf_ns_set; assumption.
+Qed.
+
 Section C12.
   Variable veval : vid -> val -> bool.
 
@@ -560,6 +677,18 @@ Section C12.
         rewrite ports_get_set_other by exact Hne. exact Hk.
   Qed.
 
+  (* the specification after [out] (it may have grown, also when the emission is rejected) keeps
+     unique names at every level *)
+  Theorem out_spec_wf : forall spec outs path v,
+    wf_port spec = true -> wf_port (or_spec (out veval spec outs path v)) = true.
+  Proof.
+    intros spec outs path v Hwf. destruct spec as [la|a ps]; [reflexivity|].
+    rewrite out_spec. unfold locate.
+    destruct (removelast (split_path path)) as [|c ns]; [exact Hwf|].
+    destruct (get_port_dyn (c :: ns) a ps) as [e|[ps' p]] eqn:Eg; [exact Hwf|].
+    exact (proj1 (get_port_dyn_wf _ _ _ _ _ Hwf Eg)).
+  Qed.
+
   (* (6) success *)
   Theorem finish_successful_iff : forall spec outs ok,
     finish_successful veval spec outs ok = true <-> ok = true /\ valid_port veval spec (VDict outs) = true.
@@ -579,3 +708,8 @@ Print Assumptions out_located_leaf.
 Print Assumptions out_wf.
 Print Assumptions get_port_dyn_preserves.
 Print Assumptions finish_successful_iff.
+Print Assumptions out_spec_wf.
+Print Assumptions get_port_dyn_found.
+Print Assumptions get_port_dyn_preserves_deep.
+Print Assumptions get_port_dyn_wf.
+Print Assumptions split_path_join.
